@@ -442,6 +442,21 @@ struct InIt
   friend bool operator!= (const InIt& a, const InIt& b) { return ! (a == b); }
 };
 
+// generator for small_vector (count, generator, alloc): yields the external values in index order; counts its calls and
+// checks their order (C15: "invokes its generator exactly count times, in index order"); a caller-side fault point
+static long g_gen_calls = 0;
+struct Generator
+{
+  const E *base; long n; long *next;
+  const E& operator() () const
+  {
+    tick_iter ();
+    ++g_gen_calls;
+    if (*next >= n) { wmsg ("C15", "generator invoked more than count times"); return base[0]; }
+    return base[(*next)++];
+  }
+};
+
 // ------------------------------------------------------------------------------------------------
 // observation
 // ------------------------------------------------------------------------------------------------
@@ -624,7 +639,8 @@ static bool parse (const std::vector<std::string>& t, Cmd& c)
   if (o == "new" && t.size () == 3) { CX (1); NAT (2, n); c.a = static_cast<int> (c.n); return true; }
   if (o == "newn" && t.size () == 4) { CX (1); NAT (3, p); c.a = static_cast<int> (c.p); NAT (2, n); return true; }
   if (o == "newv" && t.size () == 5) { CX (1); NAT (2, n); if (! to_long (t[3], r)) return false; c.v = static_cast<int> (r); NAT (4, p); c.a = static_cast<int> (c.p); return true; }
-  if (o == "newr" && t.size () == 5) { CX (1); c.it = t[2]; if (c.it != "fw" && c.it != "in") return false; NAT (3, p); c.a = static_cast<int> (c.p); return parse_vals (t[4], c.vals); }
+  if (o == "newr" && t.size () == 5) { CX (1); c.it = t[2]; if (c.it != "fw" && c.it != "in" && c.it != "ra") return false; NAT (3, p); c.a = static_cast<int> (c.p); return parse_vals (t[4], c.vals); }
+  if (o == "newg" && t.size () == 4) { CX (1); NAT (2, p); c.a = static_cast<int> (c.p); return parse_vals (t[3], c.vals); }
   if ((o == "newc" || o == "newm") && t.size () == 4) { CX (1); CY (2); if (t[3] == "-") c.has_a = false; else { NAT (3, p); c.a = static_cast<int> (c.p); c.has_a = true; } return true; }
   if ((o == "del" || o == "pop" || o == "clr" || o == "stf") && t.size () == 2) { CX (1); return true; }
   if (o == "pb" && t.size () == 3) { CX (1); return parse_arg (t[2], c); }
@@ -632,13 +648,13 @@ static bool parse (const std::vector<std::string>& t, Cmd& c)
   if (o == "ins" && t.size () == 4) { CX (1); NAT (2, p); return parse_arg (t[3], c); }
   if (o == "insm" && t.size () == 4) { CX (1); NAT (2, p); if (! to_long (t[3], r)) return false; c.v = static_cast<int> (r); return true; }
   if (o == "insn" && t.size () == 5) { CX (1); NAT (2, p); NAT (3, n); return parse_arg (t[4], c); }
-  if (o == "insr" && t.size () == 5) { CX (1); NAT (2, p); c.it = t[3]; if (c.it != "fw" && c.it != "in") return false; return parse_vals (t[4], c.vals); }
+  if (o == "insr" && t.size () == 5) { CX (1); NAT (2, p); c.it = t[3]; if (c.it != "fw" && c.it != "in" && c.it != "ra") return false; return parse_vals (t[4], c.vals); }
   if (o == "era" && t.size () == 3) { CX (1); NAT (2, p); return true; }
   if (o == "erar" && t.size () == 4) { CX (1); NAT (2, p); NAT (3, q); return true; }
   if ((o == "rsz" || o == "rsv") && t.size () == 3) { CX (1); NAT (2, n); return true; }
   if (o == "rszv" && t.size () == 4) { CX (1); NAT (2, n); return parse_arg (t[3], c); }
   if (o == "asn" && t.size () == 4) { CX (1); NAT (2, n); if (! to_long (t[3], r)) return false; c.v = static_cast<int> (r); return true; }
-  if ((o == "asr" || o == "app") && t.size () == 4) { CX (1); c.it = t[2]; if (c.it != "fw" && c.it != "in") return false; return parse_vals (t[3], c.vals); }
+  if ((o == "asr" || o == "app") && t.size () == 4) { CX (1); c.it = t[2]; if (c.it != "fw" && c.it != "in" && c.it != "ra") return false; return parse_vals (t[3], c.vals); }
   if ((o == "asc" || o == "asm" || o == "swp" || o == "appc" || o == "appm") && t.size () == 3) { CX (1); CY (2); return true; }
   if ((o == "at" || o == "get") && t.size () == 3) { CX (1); NAT (2, p); return true; }
   return false;
@@ -647,7 +663,7 @@ static bool parse (const std::vector<std::string>& t, Cmd& c)
 static bool valid (const Cmd& c)
 {
   const std::string& o = c.op;
-  if (o == "new" || o == "newn" || o == "newv" || o == "newr") return ! alive (c.x);
+  if (o == "new" || o == "newn" || o == "newv" || o == "newr" || o == "newg") return ! alive (c.x);
   if (o == "newc" || o == "newm") return c.x != c.y && ! alive (c.x) && alive (c.y);
   if (! alive (c.x)) return false;
   std::size_t sz = info (c.x).size;
@@ -689,6 +705,7 @@ struct DoSingle
     {
       typename V::iterator r;
       if (c.it == "fw") r = v.insert (v.begin () + c.p, FwdIt (ext.data ()), FwdIt (ext.data () + ext.size ()));
+      else if (c.it == "ra") r = v.insert (v.begin () + c.p, static_cast<const E *> (ext.data ()), static_cast<const E *> (ext.data () + ext.size ()));
       else r = v.insert (v.begin () + c.p, InIt (k.stream, false), InIt (k.stream, true));
       out << "i" << static_cast<long> (r - v.begin ());
     }
@@ -701,8 +718,8 @@ struct DoSingle
     else if (o == "rsv") v.reserve (static_cast<typename V::size_type> (c.n));
     else if (o == "stf") v.shrink_to_fit ();
     else if (o == "asn") v.assign (static_cast<typename V::size_type> (c.n), ext[0]);
-    else if (o == "asr") { if (c.it == "fw") v.assign (FwdIt (ext.data ()), FwdIt (ext.data () + ext.size ())); else v.assign (InIt (k.stream, false), InIt (k.stream, true)); }
-    else if (o == "app") { if (c.it == "fw") v.append (FwdIt (ext.data ()), FwdIt (ext.data () + ext.size ())); else v.append (InIt (k.stream, false), InIt (k.stream, true)); }
+    else if (o == "asr") { if (c.it == "fw") v.assign (FwdIt (ext.data ()), FwdIt (ext.data () + ext.size ())); else if (c.it == "ra") v.assign (static_cast<const E *> (ext.data ()), static_cast<const E *> (ext.data () + ext.size ())); else v.assign (InIt (k.stream, false), InIt (k.stream, true)); }
+    else if (o == "app") { if (c.it == "fw") v.append (FwdIt (ext.data ()), FwdIt (ext.data () + ext.size ())); else if (c.it == "ra") v.append (static_cast<const E *> (ext.data ()), static_cast<const E *> (ext.data () + ext.size ())); else v.append (InIt (k.stream, false), InIt (k.stream, true)); }
     else if (o == "at") { const E& e = v.at (static_cast<typename V::size_type> (c.p)); if (is_husk (e)) out << "v~"; else out << "v" << e.v; }
     else if (o == "get") { const E& e = v[static_cast<typename V::size_type> (c.p)]; if (is_husk (e)) out << "v~"; else out << "v" << e.v; }
     k.out = out.str ();
@@ -722,7 +739,17 @@ struct DoCtor   // constructs container x in its slot
     else if (o == "newr")
     {
       if (c.it == "fw") new (mem) V (FwdIt (ext.data ()), FwdIt (ext.data () + ext.size ()), Alloc (c.a));
+      else if (c.it == "ra") new (mem) V (static_cast<const E *> (ext.data ()), static_cast<const E *> (ext.data () + ext.size ()), Alloc (c.a));
       else new (mem) V (InIt (k.stream, false), InIt (k.stream, true), Alloc (c.a));
+    }
+    else if (o == "newg")
+    {
+      long next = 0;
+      Generator g = { ext.data (), static_cast<long> (ext.size ()), &next };
+      g_gen_calls = 0;
+      new (mem) V (static_cast<typename V::size_type> (ext.size ()), g, Alloc (c.a));
+      if (g_gen_calls != static_cast<long> (ext.size ()) || next != static_cast<long> (ext.size ()))
+        wmsg ("C15", "generator constructor did not invoke its generator exactly count times");
     }
   }
 };
@@ -772,7 +799,7 @@ static std::string shadow_apply (const Cmd& c, bool& known)
   if (o == "new") s.clear ();
   else if (o == "newn") s.assign (static_cast<std::size_t> (c.n), 0);
   else if (o == "newv") s.assign (static_cast<std::size_t> (c.n), c.v);
-  else if (o == "newr") s.assign (c.vals.begin (), c.vals.end ());
+  else if (o == "newr" || o == "newg") s.assign (c.vals.begin (), c.vals.end ());
   else if (o == "newc") s = g_shadow[c.y];
   else if (o == "newm") { s = g_shadow[c.y]; }
   else if (o == "del") s.clear ();
@@ -988,12 +1015,12 @@ static void run_line (const std::string& line_in)
   // external argument objects are built outside the observation window
   std::vector<E> ext;
   bool needs_one = (o == "pb" && ! c.self) || o == "pbm" || (o == "ins" && ! c.self) || o == "insm" || (o == "insn" && ! c.self) || (o == "rszv" && ! c.self) || o == "asn" || o == "newv";
-  bool needs_range = o == "newr" || o == "insr" || o == "asr" || o == "app";
+  bool needs_range = o == "newr" || o == "newg" || o == "insr" || o == "asr" || o == "app";
   ext.reserve (needs_range ? c.vals.size () + 1 : 2);
   if (needs_one) ext.push_back (mkE (c.v));
   if (needs_range) for (std::size_t i = 0; i < c.vals.size (); ++i) ext.push_back (mkE (c.vals[i]));
   Stream st; st.base = ext.data (); st.n = static_cast<long> (ext.size ()); st.cursor = 0; st.sid = 0; st.last_deref = -1; st.generation = 0;
-  bool uses_stream = needs_range && c.it == "in";
+  bool uses_stream = needs_range && o != "newg" && c.it == "in";
   if (uses_stream) st.sid = g_next_stream++;
 
   Ctx k; k.c = &c; k.ext = &ext; k.stream = &st;
@@ -1001,11 +1028,11 @@ static void run_line (const std::string& line_in)
   std::size_t blocks_before = 0; for (std::size_t i = 0; i < g_blocks.size (); ++i) if (g_blocks[i].heap) ++blocks_before;
   long objs_before = reg_internal_count ();
   std::string exc = "-";
-  bool is_ctor = o == "new" || o == "newn" || o == "newv" || o == "newr" || o == "newc" || o == "newm";
+  bool is_ctor = o == "new" || o == "newn" || o == "newv" || o == "newr" || o == "newg" || o == "newc" || o == "newm";
   g_window = true;
   try
   {
-    if (o == "new" || o == "newn" || o == "newv" || o == "newr")
+    if (o == "new" || o == "newn" || o == "newv" || o == "newr" || o == "newg")
     {
       DoCtor d (k);
       if (c.x < 2) d.construct<VN> (slot_mem (c.x)); else d.construct<VM> (slot_mem (c.x));
@@ -1148,7 +1175,7 @@ static void run_line (const std::string& line_in)
   {
     if (o == "newc") { int want = c.has_a ? c.a : (A_SOCCC ? before_y.f.alloc + 100 : before_y.f.alloc); if (info (c.x).alloc != want) wmsg ("C07", "copy construction: wrong allocator"); }
     if (o == "newm") { int want = c.has_a ? c.a : before_y.f.alloc; if (info (c.x).alloc != want && ! (c.has_a && A_AE)) wmsg ("C07", "move construction: wrong allocator"); }
-    if (o == "new" || o == "newn" || o == "newv" || o == "newr") if (info (c.x).alloc != c.a) wmsg ("C07", "allocator-extended construction: wrong allocator");
+    if (o == "new" || o == "newn" || o == "newv" || o == "newr" || o == "newg") if (info (c.x).alloc != c.a) wmsg ("C07", "allocator-extended construction: wrong allocator");
     if (o == "asc") { int want = A_POCCA ? before_y.f.alloc : before_x.f.alloc; if (info (c.x).alloc != want) wmsg ("C07", "copy assignment: allocator propagation rule broken"); if (info (c.y).alloc != before_y.f.alloc) wmsg ("C07", "copy assignment changed the source's allocator"); }
     if (o == "asm") { int want = A_POCMA ? before_y.f.alloc : before_x.f.alloc; if (info (c.x).alloc != want) wmsg ("C07", "move assignment: allocator propagation rule broken"); }
     if (o == "swp") { int wx = A_POCS ? before_y.f.alloc : before_x.f.alloc, wy = A_POCS ? before_x.f.alloc : before_y.f.alloc; if (info (c.x).alloc != wx || info (c.y).alloc != wy) wmsg ("C07", "swap: allocator exchange rule broken"); }
